@@ -598,7 +598,11 @@ func (b *UnsafeLinkBuffer) WriteDirect(extra []byte, remainLen int) error {
 		newNode.off = malloc
 		newNode.buf = origin.buf[:malloc]
 		newNode.malloc = origin.malloc
-		newNode.unsetFlag(flagUnmanaged)
+		// newNode takes over the ownership of the block only if origin owned it:
+		// an origin that is already unmanaged (split before, or caller memory) must not be freed by us.
+		if !origin.getFlag(flagUnmanaged) {
+			newNode.unsetFlag(flagUnmanaged)
+		}
 		origin.malloc = malloc
 		origin.setFlag(flagUnmanaged)
 
